@@ -329,3 +329,46 @@ class CrossTreeConstraintsMetric:
 
     def post_definition(self, result):
         return result['size'] == len(self.model.ctcs) and result['size'] == len(result['result'])
+
+
+@contract(MET, 'FMMetrics.complex_constraints', prop='C17')
+class ComplexConstraintsMetric:
+    opaque_str = ('Constraint',)
+
+    def pre(self):
+        return wf() and cache_ok(self) and ctcs_ok(self)
+
+    def post_size(self, result):
+        return result['size'] == len(result['result'])
+
+    def post_definition(self, result):
+        # as many entries as constraints for which the complex-constraint predicate holds (C18 pins the predicate down)
+        return result['size'] == len([str(c) for c in [d for d in self.model.ctcs if d.is_complex_constraint()]])
+
+
+@contract(MET, 'FMMetrics.pseudo_complex_constraints', prop='C17')
+class PseudoComplexConstraintsMetric:
+    opaque_str = ('Constraint',)
+
+    def pre(self):
+        return wf() and cache_ok(self) and ctcs_ok(self)
+
+    def post_size(self, result):
+        return result['size'] == len(result['result'])
+
+    def post_definition(self, result):
+        return result['size'] == len([str(c) for c in [d for d in self.model.ctcs if d.is_pseudocomplex_constraint()]])
+
+
+@contract(MET, 'FMMetrics.strict_complex_constraints', prop='C17')
+class StrictComplexConstraintsMetric:
+    opaque_str = ('Constraint',)
+
+    def pre(self):
+        return wf() and cache_ok(self) and ctcs_ok(self)
+
+    def post_size(self, result):
+        return result['size'] == len(result['result'])
+
+    def post_definition(self, result):
+        return result['size'] == len([str(c) for c in [d for d in self.model.ctcs if d.is_strictcomplex_constraint()]])
